@@ -563,7 +563,7 @@ def main(tier):
             chk.violation(sig, f"get_pathline/{sig['family']}: {sig['clause']} rejected by PathTrace for {len(tids)} of {nfam[sig['family']]} interior final locations; "
                                f"first: scenario {json.dumps(rec['scen'], sort_keys=True)} final_location={info['args']['xf']} "
                                f"{info.get('exc', '')}{ {k: float('%.4g' % v) for k, v in info.items() if k in ('ratio', 'ode', 'outside', 'endDev', 'T')} if 'ratio' in info else ''}",
-                          dict(kind="pathline", scenario=rec, args=info["args"], info={k: v for k, v in info.items() if k != "args"}, event=events[line - 1],
+                          dict(kind="pathline", scenario=rec, seed=SEED, rep=(tid - 1) % draws, args=info["args"], info={k: v for k, v in info.items() if k != "args"}, event=events[line - 1],
                                failing=len(tids), of=nfam[sig["family"]], other_failing_scenarios=[infos[t][0]["scen"] for t in tids[1:6]]))
         good = next((tid for tid, (rec, info) in infos.items() if "ratio" in info and info["T"] > 0), None)
         if good is None:
@@ -666,16 +666,15 @@ def replay(obj):
         print("failing clauses now:", fails)
         return 1 if fails else 0
     if r.get("kind") == "pathline":
-        a = r["args"]
-        envf = {"rate": a["amp"], "U": a["amp"], "d": a["size"]}
-        u, L = build_flow(a["fam"], a["axes"], envf)
-        try:
-            ts, pos = pathlines.get_pathline(np.array(a["xf"]), u, L, np.array(a["lo"]), np.array(a["hi"]), a["max_strain"], regular_steps=a["steps"])
-            print("returned", len(ts), "timestamps, t0 =", ts[0])
-            return 0 if obj["signature"]["clause"] == "pathline-returned" else 1
-        except Exception as ex:  # noqa: BLE001
-            print("raised", repr(ex))
-            return 1
+        ev, info = run_pathline((1, r["scenario"], r.get("seed", 0), None, r.get("rep", 0)))
+        print("now:", ev[0]["out"], {k: v for k, v in info.items() if k != "args"})
+        for e in ev[1:]:
+            print("  ", e)
+        cl = obj["signature"]["clause"]
+        if cl == "pathline-returned":
+            return 0 if ev[0]["out"] == "returned" else 1
+        return 1 if ev[0]["out"] != "returned" or (cl == "strain-bound" and info["ratio"] > 1.25) or (cl == "follows-velocity" and info["ode"] > 5e-2) \
+            or (cl == "inside-box" and info["outside"] > 1e-3) else 0
     if r.get("kind") == "strain":
         ok, dev, got, exp = strain_dev(utils, r["instance"]["case"])
         print("strain_increment ->", got, "expected", exp)
